@@ -330,6 +330,67 @@ def mapIntervals (z : Zone) : List Interval → M (List Interval)
       | .error p => .error p
       | .ok xs => .ok (x :: xs)
 
+/-! #### `iter_range`: filter → merge → map (/repo dfe1ade)
+```
+let mut naive_ranges = self.iter_range_naive(naive_from, naive_to)
+    .filter(move |dtr| locale.naive(locale.datetime(dtr.range.start)) < dtr.range.end)
+    .peekable();
+std::iter::from_fn(move || {
+    let mut curr = naive_ranges.next()?;
+    while let Some(next) = naive_ranges.next_if(|next| next.kind == curr.kind && curr.range.end <= next.range.start) {
+        curr.range.end = next.range.end;
+    }
+    Some(DateTimeRange::new_with_sorted_comments(
+        locale.datetime(curr.range.start)..locale.datetime(curr.range.end), curr.kind, curr.comments))
+})
+```
+A local span that the clock skips entirely (it would be localized to an empty interval) is dropped,
+the neighbours it separated — same kind, the first ends at/before the start of the second — are
+merged (comments of the first), and only then the bounds are mapped by `datetime`. -/
+
+/-- the `filter` closure: `locale.naive(locale.datetime(range.start)) < range.end` -/
+def keepRange (z : Zone) (iv : Interval) : M Bool :=
+  match datetime z iv.start with
+  | .error p => .error p
+  | .ok u =>
+    match naiveChecked z u with
+    | .error p => .error p
+    | .ok n => .ok (decide (n < iv.stop))
+
+/-- `.filter(…)` on the collected naive stream -/
+def filterRanges (z : Zone) : List Interval → M (List Interval)
+  | [] => .ok []
+  | iv :: rest =>
+    match keepRange z iv with
+    | .error p => .error p
+    | .ok k =>
+      match filterRanges z rest with
+      | .error p => .error p
+      | .ok xs => .ok (if k then iv :: xs else xs)
+
+/-- the `next_if` condition: only a skipped span separates two ranges of the same state -/
+def mergeable (curr next : Interval) : Bool :=
+  decide (next.kind = curr.kind) && decide (curr.stop ≤ next.start)
+
+/-- the `from_fn` closure run to exhaustion on the filtered list, `curr` being the range in hand:
+`while let Some(next) = next_if(mergeable) { curr.end = next.end }`, then `curr` is emitted and the
+next call starts with the range left in the peek slot -/
+def mergeFrom (curr : Interval) : List Interval → List Interval
+  | [] => [curr]
+  | next :: rest =>
+    if mergeable curr next then mergeFrom ⟨curr.start, next.stop, curr.kind, curr.comments⟩ rest
+    else curr :: mergeFrom next rest
+
+def mergeRanges : List Interval → List Interval
+  | [] => []
+  | curr :: rest => mergeFrom curr rest
+
+/-- filter → merge → map on a collected naive stream -/
+def localizeRanges (z : Zone) (l : List Interval) : M (List Interval) :=
+  match filterRanges z l with
+  | .error p => .error p
+  | .ok fl => mapIntervals z (mergeRanges fl)
+
 /-- `iter_range(from, to)` collected -/
 def iterRangeTzG (env : Env) (z : Zone) (frm to : Int) : M (List Interval) :=
   match naiveChecked z frm with
@@ -340,7 +401,76 @@ def iterRangeTzG (env : Env) (z : Zone) (frm to : Int) : M (List Interval) :=
     | .ok nt =>
       match iterRangeG env (min instEnd nf) (min instEnd nt) with
       | .error p => .error p
-      | .ok l => mapIntervals z l
+      | .ok l => localizeRanges z l
+
+/-! the same pipeline pulled lazily for its first item only (`iter_from(t).next()` in `next_change`):
+the naive iterator is advanced just as far as the filter and the `next_if` loop need -/
+
+/-- one `next()` of `iter_range_naive(from, to)`: `TimeDomainIterator::next`, `take_while(start < to)`,
+clipping — with the progress check of `OH.Model.collect` -/
+def naiveNext (env : Env) (frm to : Int) (st : ItState) : M (Option (Interval × ItState)) :=
+  match itNext env to st with
+  | .error p => .error p
+  | .ok none => .ok none
+  | .ok (some (iv, st')) =>
+    if iv.start ≥ to then .ok none
+    else if itMeasure (instDay to) st' < itMeasure (instDay to) st then
+      .ok (some (⟨max iv.start frm, min iv.stop to, iv.kind, iv.comments⟩, st'))
+    else .error "model: iterator made no progress (unbounded iteration)"
+
+theorem naiveNext_measure {env : Env} {frm to : Int} {st st' : ItState} {iv : Interval}
+    (h : naiveNext env frm to st = .ok (some (iv, st'))) :
+    itMeasure (instDay to) st' < itMeasure (instDay to) st := by
+  unfold naiveNext at h
+  split at h
+  · cases h
+  · cases h
+  · split at h
+    · cases h
+    · split at h
+      · rename_i hm
+        simp only [Except.ok.injEq, Option.some.injEq, Prod.mk.injEq] at h
+        rw [← h.2]; exact hm
+      · cases h
+
+/-- `naive_ranges.next()` / what `peek` computes: the next range that passes the filter -/
+def nextKept (env : Env) (z : Zone) (frm to : Int) (st : ItState) : M (Option (Interval × ItState)) :=
+  match h : naiveNext env frm to st with
+  | .error p => .error p
+  | .ok none => .ok none
+  | .ok (some (iv, st')) =>
+    match keepRange z iv with
+    | .error p => .error p
+    | .ok true => .ok (some (iv, st'))
+    | .ok false => nextKept env z frm to st'
+termination_by itMeasure (instDay to) st
+decreasing_by exact naiveNext_measure h
+
+theorem nextKept_measure {env : Env} {z : Zone} {frm to : Int} {st st' : ItState} {iv : Interval}
+    (h : nextKept env z frm to st = .ok (some (iv, st'))) :
+    itMeasure (instDay to) st' < itMeasure (instDay to) st := by
+  fun_induction nextKept env z frm to st with
+  | case1 st p hn => cases h
+  | case2 st hn => cases h
+  | case3 st iv0 st0 hn p hk => cases h
+  | case4 st iv0 st0 hn hk =>
+    simp only [Except.ok.injEq, Option.some.injEq, Prod.mk.injEq] at h
+    rw [← h.2]; exact naiveNext_measure hn
+  | case5 st iv0 st0 hn hk ih =>
+    have h1 := ih h
+    have h2 := naiveNext_measure hn
+    omega
+
+/-- the `while let Some(next) = naive_ranges.next_if(…)` loop, from the iterator state after `curr` -/
+def absorb (env : Env) (z : Zone) (frm to : Int) (curr : Interval) (st : ItState) : M Interval :=
+  match h : nextKept env z frm to st with
+  | .error p => .error p
+  | .ok none => .ok curr
+  | .ok (some (next, st')) =>
+    if mergeable curr next then absorb env z frm to ⟨curr.start, next.stop, curr.kind, curr.comments⟩ st'
+    else .ok curr
+termination_by itMeasure (instDay to) st
+decreasing_by exact nextKept_measure h
 
 /-- first item of `iter_range(from, to)` -/
 def firstIntervalTzG (env : Env) (z : Zone) (frm to : Int) : M (Option Interval) :=
@@ -350,13 +480,19 @@ def firstIntervalTzG (env : Env) (z : Zone) (frm to : Int) : M (Option Interval)
     match naiveChecked z to with
     | .error p => .error p
     | .ok nt =>
-      match firstIntervalG env (min instEnd nf) (min instEnd nt) with
+      match itNew env (min instEnd nf) (min instEnd nt) with
       | .error p => .error p
-      | .ok none => .ok none
-      | .ok (some iv) =>
-        match mapInterval z iv with
+      | .ok st =>
+        match nextKept env z (min instEnd nf) (min instEnd nt) st with
         | .error p => .error p
-        | .ok x => .ok (some x)
+        | .ok none => .ok none
+        | .ok (some (curr, st')) =>
+          match absorb env z (min instEnd nf) (min instEnd nt) curr st' with
+          | .error p => .error p
+          | .ok c =>
+            match mapInterval z c with
+            | .error p => .error p
+            | .ok x => .ok (some x)
 
 /-- `iter_from(from)` collected: `iter_range(from, locale.datetime(DATE_END))` -/
 def iterFromTzG (env : Env) (z : Zone) (frm : Int) : M (List Interval) :=
